@@ -17,7 +17,7 @@ RULE = ('case A (scaled) = a base asset (Storage, SimpleContract, Contract with 
         'vs. the flat portfolio with the inner assets at the same position: c, l, u equal, the structured solution is feasible in the flat problem, '
         'optimal values equal, external-node dispatch of the structured asset = sum of the inner assets\' dispatch at that node in a flat optimum '
         'of equal value. Non-trivial: scaled/structured asset carries flow; distinct = spec hashes.')
-ASSUMPTIONS = ['active duration of the fixed costs = the scaled asset\'s own window clipped to the horizon (the wrapper is generated with the same window as its base, or none)',
+ASSUMPTIONS = ['active duration of the fixed costs = the scaled asset\'s own window clipped to the horizon; the base asset is active in the intersection of its own and the wrapper\'s window',
                'levels, inflow, size and take volumes are volumes/rates of the base and scale with s/norm',
                'value tolerance 1e-5 relative']
 MIN_NONVACUOUS = {'quick': {'scaled.fixed_scale_equals_scaled_parameters': 62, 'scaled.free_scale_is_best': 50, 'scaled.free_scale_reproduced_when_fixed': 37,
@@ -75,8 +75,14 @@ def gen_scaled(rng):
     sc = {'type': 'ScaledAsset', 'name': 'SC', 'base': b, 'min_scale': mn, 'max_scale': mx, 'norm_scale': norm,
           'fix_costs': gen.r2(gen.pick(rng, [0., 0.05, 0.5]) * f), 'wacc': gen.pick(rng, [0., 0., 0.5, 2.]),
           'start': b.get('start') if rng.random() < 0.7 else None, 'end': b.get('end') if rng.random() < 0.7 else None}
-    if (sc['start'] is None) != (b.get('start') is None) or (sc['end'] is None) != (b.get('end') is None):
-        # keep 'active duration' unambiguous: wrapper window = base window, or neither has one
+    r_ = rng.random()
+    if r_ < 0.35:
+        # the wrapper has a lifetime of its own (the base is then active in the intersection of both windows; fix costs accrue over the wrapper's)
+        sc['start'], sc['end'], _k = gen.gen_window(rng, g, kinds=['inside', 'inside', 'straddle_start', 'straddle_end', 'start_only', 'end_only', 'after', 'before'])
+        if rng.random() < 0.5:
+            b['start'] = None; b['end'] = None
+    elif (sc['start'] is None) != (b.get('start') is None) or (sc['end'] is None) != (b.get('end') is None):
+        # wrapper window = base window, or neither has one
         b['start'] = None; b['end'] = None; sc['start'] = None; sc['end'] = None
     assets.append(sc)
     for j in range(int(rng.integers(0, 2))):
@@ -101,6 +107,12 @@ def plain_equivalent(spec, s):
     for a in sp['assets']:
         if a['type'] == 'ScaledAsset':
             b = scale_base(a['base'], s / a['norm_scale'])
+            # the base is active where the wrapper AND the base are
+            import pandas as pd
+            if a.get('start') is not None:
+                b['start'] = a['start'] if b.get('start') is None else str(max(pd.Timestamp(a['start']), pd.Timestamp(b['start'])))
+            if a.get('end') is not None:
+                b['end'] = a['end'] if b.get('end') is None else str(min(pd.Timestamp(a['end']), pd.Timestamp(b['end'])))
             out.append(b)
         else:
             out.append(a)
@@ -150,7 +162,10 @@ def run_scaled(rng, tier, case):
     dur = float(ck.dt[W].sum())
     special = r.out['special']
     row = special[(special['asset'] == 'SC') & (special['name'] == 'scale')]
-    Wb = ck.window(sc['base'].get('start'), sc['base'].get('end'))
+    Wb = sorted(set(ck.window(sc['base'].get('start'), sc['base'].get('end'))) & set(W))
+    if not Wb and W:
+        case.feature('wrapper_active_base_not'); case.nontrivial = False      # (fix costs of a wrapper whose base is never active: not defined sharply - no claim)
+        return
     if not Wb:
         # base asset (and wrapper) without any step in the horizon: the scaled asset is inert
         case.feature('scaled_asset_outside_horizon')
